@@ -19,6 +19,8 @@ def nc_meta(rng, allow_list=True):
 def norm_meta(d):
     """metadata compared up to the numeric container: numpy scalars / arrays vs Python numbers / lists"""
     out = {}
+    if 'missing_value' in d and '_FillValue' in d:
+        d = {k: v for k, v in d.items() if k != '_FillValue'}      # (see gen_nc_array)
     for k, v in d.items():
         if isinstance(v, np.ndarray): v = v.tolist()
         elif isinstance(v, np.generic): v = v.item()
@@ -127,6 +129,10 @@ def gen_nc_array(rng, pool, stats, fmt, dims=None, new_dims=0):
     a['labels'] = labels; a['axdtype'] = kinds
     if dt == 'O': a['dtype'] = 'O'; a['flat'] = [rng.choice(['p', 'qq', 'r s', '']) for _ in a['flat']]
     a['attrs'] = nc_meta(rng, allow_list=True)
+    if dt == 'f' and rng.random() < 0.2:
+        # the CF key missing_value: the library also declares it as the variable's fill value (so THAT variable reads back with a
+        # _FillValue entry, dropped by norm_meta); no other variable or axis of the file may get one
+        a['attrs']['missing_value'] = -999.0; stats['nc_missing_value']['yes'] += 1
     a['axattrs'] = [dict(pool[d][2]) for d in dims]
     stats['nc_var_dtype'][dt] += 1; stats['nc_var_ndim'][len(dims)] += 1
     return a
